@@ -28,6 +28,7 @@ import (
 
 	"github.com/go-critic/go-critic/linter"
 
+	"verifharness/internal/c04"
 	"verifharness/internal/common"
 	"verifharness/internal/fw"
 )
@@ -180,7 +181,10 @@ var (
 type poolItem struct {
 	pkg, name string
 	lines     []string
+	class     string // "negatives" (example packages), "c04-workspace", "stress"
 }
+
+var poolByClass map[string][]int
 
 // dangerousDocs: texts that tools treat specially when they meet them in a comment; as the doc comment of an unrelated
 // declaration in the middle of a file they must not change what is reported for the other declarations.
@@ -296,8 +300,17 @@ var transforms = []transform{
 		if own := negByPkg[curPkgName]; len(own) > 0 {
 			picks = append(picks, own...)
 		}
-		for k := 0; k < 4 && len(negPool) > 0; k++ {
-			picks = append(picks, rng.Intn(len(negPool)))
+		// stratified: some of every source class, so that a small class (the generic shapes of the C04 workspace) reaches every file
+		var classes []string
+		for c := range poolByClass {
+			classes = append(classes, c)
+		}
+		sort.Strings(classes)
+		for _, c := range classes {
+			idx := poolByClass[c]
+			for k := 0; k < 2 && len(idx) > 0; k++ {
+				picks = append(picks, idx[rng.Intn(len(idx))])
+			}
 		}
 		used := map[int]bool{}
 		for _, pi := range picks {
@@ -308,7 +321,9 @@ var transforms = []transform{
 			it := negPool[pi]
 			e.pad("")
 			for _, l := range it.lines {
-				e.pad(strings.Replace(l, "func "+it.name+"(", "func verifNeg"+tag+"_"+it.pkg+"_"+it.name+"(", 1))
+				nl := strings.Replace(l, "func "+it.name+"(", "func verifNeg"+tag+"_"+it.pkg+"_"+it.name+"(", 1)
+				nl = strings.Replace(nl, "func "+it.name+"[", "func verifNeg"+tag+"_"+it.pkg+"_"+it.name+"[", 1)
+				e.pad(nl)
 			}
 		}
 		return e.done()
@@ -494,41 +509,78 @@ func hasComment(lines []string) bool {
 
 // buildNegPool collects the plain functions of negative example files that type-check on their own (no imports, no
 // package-level helpers), so that they can be appended to any file.
-func buildNegPool(files []*fw.File, splits map[string]*split) {
-	negPool, negByPkg = nil, map[string][]int{}
+func addPoolChunks(class, pkg string, sp *split) {
+	for _, c := range sp.chunks {
+		if !c.plain || c.name == "" || c.name == "_" {
+			continue
+		}
+		var body []string
+		for _, l := range c.lines {
+			if directiveRE.MatchString(l) {
+				continue
+			}
+			body = append(body, l)
+		}
+		src := "package p\n\n" + strings.Join(body, "\n") + "\n"
+		fset := token.NewFileSet()
+		pf, err := parser.ParseFile(fset, "p.go", src, parser.ParseComments)
+		if err != nil {
+			continue
+		}
+		conf := types.Config{Error: func(error) {}}
+		if _, err := conf.Check("p", fset, []*ast.File{pf}, nil); err != nil {
+			continue
+		}
+		if class == "negatives" {
+			negByPkg[pkg] = append(negByPkg[pkg], len(negPool))
+		}
+		poolByClass[class] = append(poolByClass[class], len(negPool))
+		negPool = append(negPool, poolItem{sanitize(pkg), c.name, body, class})
+	}
+}
+
+func sanitize(s string) string {
+	return strings.Map(func(r rune) rune {
+		if r >= 'a' && r <= 'z' || r >= 'A' && r <= 'Z' || r >= '0' && r <= '9' {
+			return r
+		}
+		return '_'
+	}, s)
+}
+
+// buildNegPool collects plain functions that type-check on their own (no imports, no package-level helpers), so that
+// they can be appended to any file: the functions of all negative example files, the functions of the C04 workspace
+// generator (generic shapes that drive SizeOf's recover path, ...) and those of the stress corpora.
+func buildNegPool(files []*fw.File, splits map[string]*split, scratch string) {
+	negPool, negByPkg, poolByClass = nil, map[string][]int{}, map[string][]int{}
 	for _, f := range files {
 		if f.Pkg.Stream != "S1" || !strings.HasPrefix(f.Name, "negative") {
 			continue
 		}
-		sp := splits[f.ID()]
-		if sp == nil {
-			continue
+		if sp := splits[f.ID()]; sp != nil {
+			addPoolChunks("negatives", f.Pkg.Name, sp)
 		}
-		for _, c := range sp.chunks {
-			if !c.plain || c.name == "" || c.name == "_" {
-				continue
-			}
-			var body []string
-			for _, l := range c.lines {
-				if directiveRE.MatchString(l) {
-					continue
-				}
-				body = append(body, l)
-			}
-			src := "package p\n\n" + strings.Join(body, "\n") + "\n"
-			fset := token.NewFileSet()
-			pf, err := parser.ParseFile(fset, "p.go", src, parser.ParseComments)
+	}
+	fromFiles := func(class string, paths []string) {
+		sort.Strings(paths)
+		for _, p := range paths {
+			src, err := os.ReadFile(p)
 			if err != nil {
 				continue
 			}
-			conf := types.Config{Error: func(error) {}}
-			if _, err := conf.Check("p", fset, []*ast.File{pf}, nil); err != nil {
-				continue
+			if sp, err := splitFile(src); err == nil {
+				addPoolChunks(class, filepath.Base(filepath.Dir(p)), sp)
 			}
-			negByPkg[f.Pkg.Name] = append(negByPkg[f.Pkg.Name], len(negPool))
-			negPool = append(negPool, poolItem{f.Pkg.Name, c.name, body})
 		}
 	}
+	ws := filepath.Join(scratch, "pool_ws4")
+	os.RemoveAll(ws)
+	c04.Workspace(ws, 1, 1)
+	m, _ := filepath.Glob(filepath.Join(ws, "*", "*.go"))
+	fromFiles("c04-workspace", m)
+	m1, _ := filepath.Glob(filepath.Join(fw.Root(), "corpus", "stress", "*", "*.go"))
+	m2, _ := filepath.Glob(filepath.Join(fw.StressDir(), "*", "*.go"))
+	fromFiles("stress", append(m1, m2...))
 }
 
 type wkey struct {
@@ -633,8 +685,16 @@ func Run(tier string, seed int64, outDir string) *common.Meta {
 			splits[fb.f.ID()] = fb.split
 			fl = append(fl, fb.f)
 		}
-		buildNegPool(fl, splits)
+		buildNegPool(fl, splits, outDir)
 		meta.Distribution["negative_function_pool"] = len(negPool)
+		pc := map[string]int{}
+		for c, idx := range poolByClass {
+			pc[c] = len(idx)
+		}
+		meta.Distribution["appendable_pool_by_class"] = pc
+		if pc["c04-workspace"] == 0 {
+			meta.TieBroken = append(meta.TieBroken, "no appendable declaration from the C04 workspace generator (generic SizeOf shapes)")
+		}
 		if len(negPool) < 20 {
 			meta.TieBroken = append(meta.TieBroken, fmt.Sprintf("pool of appendable negative-example functions is nearly empty (%d)", len(negPool)))
 		}
